@@ -126,7 +126,7 @@ def h_late(params, p, m0, m1, m2, m3, m4):
   return None
 
 
-def h_split(params, c0, c1, c2, c3, c4, p, m0, m1, m2, m3, m4, override, ctor_override=False):
+def h_split(params, c0, c1, c2, c3, c4, p, m0, m1, m2, m3, m4, override, ctor_override=False, via_copy=False):
   """Keyword binding at construction, positional + keyword binding at call time (override on/off, enabled at call time
   or at construction)."""
   name = params['sig']
@@ -146,6 +146,16 @@ def h_split(params, c0, c1, c2, c3, c4, p, m0, m1, m2, m3, m4, override, ctor_ov
     obj = F(**ckw, override_args=True) if ctor_override else F(**ckw)
   except TypeError:
     raise Assume()          # construction-time errors are h_ctor's subject
+  from engine.chx import concretize
+  via_copy = concretize(via_copy, (0, 1, 2))
+  suffix = ''
+  if via_copy == 1:
+    # the call goes to a copy of the functor: a copy binds and calls like its original
+    obj = obj.clone().clone(deep=True)
+    suffix = ':on_clone'
+  elif via_copy == 2:
+    obj = pg.from_json(pg.to_json(obj))
+    suffix = ':after_json_round_trip'
   # effective arguments
   eff = dict(ckw)
   varargs = []
@@ -201,10 +211,10 @@ def h_split(params, c0, c1, c2, c3, c4, p, m0, m1, m2, m3, m4, override, ctor_ov
   r2, e2 = _call(obj, args, call_kwargs)
   reach('split.ok' if e1 is None else 'split.error')
   if e1 != e2:
-    return Violation(f'split:error_kind_differs:{name}:{e1}->{e2}',
+    return Violation(f'split:error_kind_differs:{name}:{e1}->{e2}{suffix}',
                      f'ctor {ckw} call *{args} **{kwargs} override={override}: direct {e1} {r1!r}, functor {e2} {r2!r}')
   if r1 != r2:
-    return Violation(f'split:result_differs:{name}', f'ctor {ckw} call *{args} **{kwargs} override={override}: direct {r1!r}, functor {r2!r}')
+    return Violation(f'split:result_differs:{name}{suffix}', f'ctor {ckw} call *{args} **{kwargs} override={override}: direct {r1!r}, functor {r2!r}')
   # call-time values must not stick
   r0, e0 = _call(f, [], dict(ckw)) if not any(n in ckw for n in []) else (None, None)
   r3, e3 = _call(obj, [], {})
@@ -439,7 +449,7 @@ def h_signature(params, dummy):
 
 
 _CALL = [('p', 'int')] + [(f'm{i}', 'bool') for i in range(5)]
-_SPLIT = [(f'c{i}', 'bool') for i in range(5)] + _CALL + [('override', 'bool'), ('ctor_override', 'bool')]
+_SPLIT = [(f'c{i}', 'bool') for i in range(5)] + _CALL + [('override', 'bool'), ('ctor_override', 'bool'), ('via_copy', 'int')]
 
 
 def shards(tier, seed):
